@@ -62,6 +62,7 @@ def utf8_family(ctx, r):
     two = [bytes([a, b]) for a in (0xC0, 0xC1, 0xC2, 0xDF, 0xE0, 0xED, 0xEF, 0xF0, 0xF4, 0xF5, 0xFF, 0x80, 0xBF) for b in (0x7F, 0x80, 0x8F, 0x90, 0x9F, 0xA0, 0xBF, 0xC0)]
     for t in two:
         pool += [t, t + b"\x80", t + b"\x80\x80", t + b"\xbf\xbf\xbf", b"a" + t + b"z"]
+    pool += [x.encode() for x in G.UTF8_SPECIAL] + [x.encode()[:-1] for x in G.UTF8_SPECIAL if len(x.encode()) > 1]
     for _ in range(ctx.n(600, 20000)):
         k = r.random()
         if k < 0.4:
